@@ -73,6 +73,9 @@ pub struct FnInfo {
     pub opt_mut_params: Vec<String>,
     /// the method is named like a field of its struct: its Lean name gets a trailing `'`
     pub field_clash: bool,
+    /// a "finder": the fn returns `Option<&mut T>` (`Some(false)`) or `Option<(usize, &mut T)>` (`Some(true)`) pointing into
+    /// its `&mut [Option<T>]` parameter (named here); the generated fn returns the POSITION (`Option Nat`)
+    pub ref_ret: Option<(bool, String)>,
     /// declared return type (`Ty::Res` for `Result`)
     pub ret: Ty,
     /// position in the emission order
@@ -573,6 +576,7 @@ impl Globals {
                         let mut params = Vec::new();
                         let mut mut_params = Vec::new();
                         let mut opt_mut_params = Vec::new();
+                        let mut ref_ret: Option<(bool, String)> = None;
                         for a in &sig.inputs {
                             match a {
                                 syn::FnArg::Receiver(r) => {
@@ -643,10 +647,45 @@ impl Globals {
                         let ret = match &sig.output {
                             syn::ReturnType::Default => Ty::Unit,
                             syn::ReturnType::Type(_, t) => {
-                                if has_mut_ref(t) {
-                                    return err_at(path, t.span(), "a `&mut` reference in the return type is not supported (it would become a copy)");
+                                let disp_name = match &self_ty {
+                                    Some(st) => format!("{}::{}", simple_of(st), fn_name),
+                                    None => fn_name.clone(),
+                                };
+                                let ret_ok = crate::manifest::BORROWED_RETURN_OK.iter().any(|(f, n, _)| *f == path && *n == disp_name);
+                                if has_mut_ref(t) && !ret_ok {
+                                    // a finder: `Option<&mut T>` / `Option<(usize, &mut T)>` into the single `&mut [Option<T>]`
+                                    // parameter; represented by the position of the element (see `Cx::finder_body`)
+                                    let shape = finder_shape(t);
+                                    let slice_params: Vec<String> = sig
+                                        .inputs
+                                        .iter()
+                                        .filter_map(|a| match a {
+                                            syn::FnArg::Typed(pt) => match (&*pt.pat, &*pt.ty) {
+                                                (syn::Pat::Ident(pi), syn::Type::Reference(r)) if r.mutability.is_some() && matches!(&*r.elem, syn::Type::Slice(_)) => {
+                                                    Some(pi.ident.to_string())
+                                                }
+                                                _ => None,
+                                            },
+                                            _ => None,
+                                        })
+                                        .collect();
+                                    match (shape, slice_params.len(), self_mode) {
+                                        (Some(with_index), 1, SelfMode::None) if mut_params.len() == 1 && mut_params[0] == slice_params[0] => {
+                                            ref_ret = Some((with_index, slice_params[0].clone()));
+                                            mut_params.clear();
+                                            Ty::Opt(Box::new(Ty::usize()))
+                                        }
+                                        _ => {
+                                            return err_at(
+                                                path,
+                                                t.span(),
+                                                "a `&mut` reference in the return type is only supported for a finder `fn(&mut [Option<T>], ..) -> Option<&mut T>` / `Option<(usize, &mut T)>`",
+                                            )
+                                        }
+                                    }
+                                } else {
+                                    conv_ty(path, t, self_ty.as_deref(), &type_names)?
                                 }
-                                conv_ty(path, t, self_ty.as_deref(), &type_names)?
                             }
                         };
                         if let Sel::From(d, s) = sel {
@@ -663,6 +702,7 @@ impl Globals {
                             mut_params,
                             opt_mut_params,
                             field_clash: false,
+                            ref_ret,
                             const_params,
                             ret,
                             order,
@@ -677,6 +717,31 @@ impl Globals {
 
 fn borrowed_ok(file: &str, ty: &str) -> bool {
     crate::manifest::BORROWED_FIELDS_OK.iter().any(|(f, t, _)| *f == file && *t == ty)
+}
+
+/// `Option<&mut T>` → `Some(false)`, `Option<(usize, &mut T)>` → `Some(true)`
+fn finder_shape(t: &syn::Type) -> Option<bool> {
+    if let syn::Type::Path(p) = t {
+        let last = p.path.segments.last()?;
+        if last.ident == "Option" {
+            let args = generic_args(last);
+            if args.len() == 1 {
+                match args[0] {
+                    syn::Type::Reference(r) if r.mutability.is_some() && !has_mut_ref(&r.elem) => return Some(false),
+                    syn::Type::Tuple(tt) if tt.elems.len() == 2 => {
+                        let is_usize = matches!(&tt.elems[0], syn::Type::Path(pp) if pp.path.is_ident("usize"));
+                        if let syn::Type::Reference(r) = &tt.elems[1] {
+                            if is_usize && r.mutability.is_some() && !has_mut_ref(&r.elem) {
+                                return Some(true);
+                            }
+                        }
+                    }
+                    _ => {}
+                }
+            }
+        }
+    }
+    None
 }
 
 /// does the type mention a `&mut` reference anywhere?
@@ -768,6 +833,7 @@ fn register_builtins(g: &mut Globals) {
             mut_params: vec![],
             opt_mut_params: vec![],
             field_clash: false,
+            ref_ret: None,
             const_params: vec![],
             err_state: ERR_STATE_BUILTINS.contains(&(st, name)),
             ret,
@@ -821,6 +887,7 @@ fn register_builtins(g: &mut Globals) {
                 mut_params: vec!["buffer".to_string()],
                 opt_mut_params: vec![],
             field_clash: false,
+            ref_ret: None,
                 const_params: vec![],
                 err_state: true,
                 ret: Ty::Res(Box::new(Ty::Unit), Box::new(cerr.clone())),
@@ -839,6 +906,7 @@ fn register_builtins(g: &mut Globals) {
         mut_params: vec![],
         opt_mut_params: vec![],
             field_clash: false,
+            ref_ret: None,
         const_params: vec![],
         err_state: false,
         ret: Ty::usize(),
